@@ -312,7 +312,11 @@ def step (s : St) (line : String) : IO St := do
       let rq' : Req := { rq with bw := rq.bw ++ [(id, v)] }
       return { s with req := rq' }
     | _, _ => return { s with badParse := true }
-  | "find" :: _ => return { s with find := resOf ws }
+  | "find" :: _ =>
+    let s := { s with find := resOf ws }
+    if kvNat? ws "probok" == some 0 then
+      mismatch s "finality: the probability stored for the source differs from the product along the returned chain"
+    else return s
   | "edge" :: _ :: rest =>
     match kvNat? rest "chan", kvNat? rest "from", kvNat? rest "to", kvNat? rest "base",
           kvNat? rest "rate", kvNat? rest "delta", kvInt? rest "ibase", kvInt? rest "irate",
